@@ -121,6 +121,11 @@ def main(argv=None):
         for e in r['monitor_errors']:
             inconclusive.append('monitor callback error: ' + e[-400:])
         for e in r['unresolved']:
+            # (functions that are only watched for reach / line coverage and decide nothing may be refactored away)
+            if any(e == a or e.startswith(a) for a in getattr(mod, 'ALSO_WATCHED', [])):
+                if ('optional watch no longer resolves: ' + e) not in notes:
+                    notes.append('optional watch no longer resolves: ' + e)
+                continue
             inconclusive.append('anchor moved (no longer resolves): ' + e)
         for e in r['harness_errors']:
             inconclusive.append('harness error on %s: %s' % (e['case'][:200], e['tb'][-600:]))
